@@ -25,6 +25,14 @@ theorem Lawful.consumed {c : Codec α} (h : Lawful c) (b : Bytes) (t : α) (rest
   simp only [List.length_append] at this
   omega
 
+/-- the bytes read are exactly the serialization of what is returned, the rest is exactly what is left, and
+    the bytes read are as many as the reported size. -/
+def ReadsExactly (c : Codec α) : Prop :=
+  ∀ b t rest, c.parse b = .ok (t, rest) → b = c.ser t ++ rest ∧ c.size t + rest.length = b.length
+
+theorem readsExactly_of {c : Codec α} (h : Lawful c) : ReadsExactly c :=
+  fun b t rest hp => (h.consumed b t rest hp).2
+
 /-- every valid object has at least one byte of encoding. -/
 def NonEmpty (c : Codec α) : Prop := ∀ t, c.valid t → 0 < (c.ser t).length
 
